@@ -188,7 +188,8 @@ func (fr *Frame) callFn(st *State, site ssa.Instruction, fn *ssa.Function, args 
 		return r
 	}
 	if c := v.lookupContract(fn); c != nil && c.Options["inline"] == "" && !(fr.top && fr.fn == fn) && !v.opaqueNames[fn.Name()] && !v.inlineNames[fn.Name()] {
-		extern := pkgOf(fn) == nil || !strings.HasPrefix(pkgOf(fn).Pkg.Path(), "github.com/consensys/gnark-crypto")
+		extern := pkgOf(fn) == nil || !strings.HasPrefix(pkgOf(fn).Pkg.Path(), "github.com/consensys/gnark-crypto") ||
+			(c.Assumed != "" && strings.HasPrefix(c.Func, pkgOf(fn).Pkg.Name()+"."))
 		// an assumed contract of a function of another module is stated in the calling package's own contract file,
 		// at that package's layer: it applies as it stands
 		sameLayer := extern || v.layerKeyOf(pkgOf(fn), c) == v.curLayerKey
